@@ -21,6 +21,7 @@ import (
 	"google.golang.org/genproto/googleapis/api/annotations"
 	"google.golang.org/genproto/googleapis/api/httpbody"
 	"google.golang.org/grpc"
+	"google.golang.org/grpc/stats"
 	"google.golang.org/protobuf/proto"
 	"google.golang.org/protobuf/reflect/protoreflect"
 	"google.golang.org/protobuf/types/dynamicpb"
@@ -46,6 +47,36 @@ type RetainEv struct {
 	Len       int    `json:"len"`
 	Limit     int    `json:"limit"`
 	Mode      string `json:"mode"`
+	// what a stats handler installed on the mux saw of the call (uploads): one in-payload event per message the
+	// handler received, one out-payload event per reply
+	InPayloads  int `json:"inpayloads"`
+	OutPayloads int `json:"outpayloads"`
+	Begins      int `json:"begins"`
+	Ends        int `json:"ends"`
+}
+
+// uploadStats counts the stats events of one upload.
+type uploadStats struct {
+	mu                  sync.Mutex
+	in, out, begin, end int
+}
+
+func (u *uploadStats) TagRPC(ctx context.Context, _ *stats.RPCTagInfo) context.Context   { return ctx }
+func (u *uploadStats) TagConn(ctx context.Context, _ *stats.ConnTagInfo) context.Context { return ctx }
+func (u *uploadStats) HandleConn(context.Context, stats.ConnStats)                       {}
+func (u *uploadStats) HandleRPC(_ context.Context, s stats.RPCStats) {
+	u.mu.Lock()
+	defer u.mu.Unlock()
+	switch s.(type) {
+	case *stats.InPayload:
+		u.in++
+	case *stats.OutPayload:
+		u.out++
+	case *stats.Begin:
+		u.begin++
+	case *stats.End:
+		u.end++
+	}
 }
 
 // A download serves a handler-owned asset (a cached file) as an HttpBody reply: the asset belongs to the application
@@ -121,6 +152,7 @@ type uploadRun struct {
 	want   []byte
 	crash  string
 	status int
+	stats  uploadStats
 }
 
 func runUpload(c UploadCase) *uploadRun {
@@ -136,7 +168,7 @@ func runUpload(c UploadCase) *uploadRun {
 		u.crash = "setup: " + err.Error()
 		return u
 	}
-	mux, err := larking.NewMux(larking.FilesOption(files), larking.MaxReceiveMessageSizeOption(c.Limit))
+	mux, err := larking.NewMux(larking.FilesOption(files), larking.MaxReceiveMessageSizeOption(c.Limit), larking.StatsOption(&u.stats))
 	if err != nil {
 		u.crash = "setup: " + err.Error()
 		return u
@@ -190,7 +222,8 @@ func runUpload(c UploadCase) *uploadRun {
 }
 
 func (u *uploadRun) event() RetainEv {
-	ev := RetainEv{Ev: "Retain", Case: u.c.ID, Chunks: len(u.chunks), Stable: true, Crash: u.crash, Len: u.c.Len, Limit: u.c.Limit, Mode: u.c.Mode}
+	ev := RetainEv{Ev: "Retain", Case: u.c.ID, Chunks: len(u.chunks), Stable: true, Crash: u.crash, Len: u.c.Len, Limit: u.c.Limit, Mode: u.c.Mode,
+		InPayloads: u.stats.in, OutPayloads: u.stats.out, Begins: u.stats.begin, Ends: u.stats.end}
 	var all []byte
 	for _, ch := range u.chunks {
 		if sha256.Sum256(ch.data) != ch.digest {
